@@ -212,3 +212,72 @@ Example C02_runs_exist :
       && is_ok (prologue p (square_all (kops_of (QFr (fun x => x)) meth) ex_m) 6)) [Debug; Release])
     [Single; Complete; Average; Weighted; Ward; Centroid; Median] = true.
 Proof. vm_compute. reflexivity. Qed.
+
+(* ---- Part D: the same through nnchain_with (what `linkage` runs for complete,
+   average, weighted, ward): every recorded height is the criterion of the two
+   clusters merged - complete over any strict weak order, average / weighted /
+   ward in exact rational arithmetic ---- *)
+Require Import KV.Model.Chain KV.Proofs.ShapeCheck KV.Proofs.ChainIter KV.Proofs.ChainCriterion KV.Proofs.ChainInstances.
+Local Close Scope Q_scope.
+
+Theorem C02_nnchain_criterion : forall (T : Type) (K : kops T) (p : profile) (meth : method),
+  (forall a, k_ltb K a a = false) ->
+  (forall a b c, k_ltb K a b = true -> k_ltb K b c = true -> k_ltb K a c = true) ->
+  (forall a b c, k_ltb K a b = false -> k_ltb K b c = false -> k_ltb K a c = false) ->
+  (forall va vb md sa sb sx, size_ok meth sa sb sx ->
+     k_ltb K va md = false -> k_ltb K vb md = false ->
+     k_ltb K (k_upd K va vb md sa sb sx) va = false \/ k_ltb K (k_upd K va vb md sa sb sx) vb = false) ->
+  forall crit : mtree -> mtree -> T -> Prop,
+  (forall A B v, crit A B v -> crit B A v) ->
+  (forall X A B va vb md, crit X A va -> crit X B vb -> crit A B md ->
+     crit X (Node A B) (k_upd K va vb md (tsize A) (tsize B) (if uses_size_x meth then tsize X else 0))) ->
+  (uses_sizes_ab meth = false ->
+     forall va vb md sa sb sa' sb' sx, k_upd K va vb md sa sb sx = k_upd K va vb md sa' sb' sx) ->
+  forall s d m n s' d' m' M0,
+  (n < two32)%N -> wf_shape n (N.of_nat (length m)) ->
+  nnchain_with K p meth s d m n = Ok (s', d', m') ->
+  prologue p (square_all K m) n = Ok M0 ->
+  (forall x y v, x <> y -> x < m_obs M0 -> y < m_obs M0 -> wcell M0 x y = Some v -> crit (Leaf x) (Leaf y) v) ->
+  exists raw tr L' mem',
+    mtrace (seq 0 (m_obs M0)) Leaf tr L' mem'
+    /\ Forall2 (fun st (ab : mtree * mtree) => crit (fst ab) (snd ab) (s_dis st)) raw tr
+    /\ length raw = m_obs M0 - 1
+    /\ Permutation (heights d') (map (k_rt K) (map (@s_dis T) raw)).
+Proof. exact nnchain_criterion. Qed.
+Print Assumptions C02_nnchain_criterion.
+
+Theorem C02_nnchain_complete : forall (T : Type) (F : fops T) (p : profile),
+  (forall a, f_ltb F a a = false) ->
+  (forall a b c, f_ltb F a b = true -> f_ltb F b c = true -> f_ltb F a c = true) ->
+  (forall a b c, f_ltb F a b = false -> f_ltb F b c = false -> f_ltb F a c = false) ->
+  forall s d (m : list T) (n : N) s' d' m' M0,
+  (n < two32)%N -> wf_shape n (N.of_nat (length m)) ->
+  nnchain_with (kops_of F Complete) p Complete s d m n = Ok (s', d', m') ->
+  prologue p m n = Ok M0 ->
+  exists raw tr L' mem',
+    mtrace (seq 0 (m_obs M0)) Leaf tr L' mem'
+    /\ Forall2 (fun st (ab : mtree * mtree) =>
+                  is_max_over (f_ltb F) (cell_or (f_inf F) M0) (fst ab) (snd ab) (s_dis st)) raw tr
+    /\ length raw = m_obs M0 - 1
+    /\ Permutation (heights d') (map (@s_dis T) raw).
+Proof. exact nnchain_complete_criterion. Qed.
+Print Assumptions C02_nnchain_complete.
+
+Theorem C02_nnchain_Q : forall (p : profile) (rt : Q -> Q) (meth : method) s d (m : list Q) (n : N) s' d' m' M0,
+  meth = Average \/ meth = Weighted \/ meth = Ward ->
+  (n < two32)%N -> wf_shape n (N.of_nat (length m)) ->
+  nnchain_with (kops_of (QFr rt) meth) p meth s d m n = Ok (s', d', m') ->
+  prologue p (square_all (kops_of (QFr rt) meth) m) n = Ok M0 ->
+  exists raw tr L' mem',
+    mtrace (seq 0 (m_obs M0)) Leaf tr L' mem'
+    /\ Forall2 (fun st (ab : mtree * mtree) => crit_of meth M0 (fst ab) (snd ab) (s_dis st)) raw tr
+    /\ length raw = m_obs M0 - 1
+    /\ Permutation (heights d') (map (k_rt (kops_of (QFr rt) meth)) (map (@s_dis Q) raw)).
+Proof. exact nnchain_criterion_Q. Qed.
+Print Assumptions C02_nnchain_Q.
+
+(* non-vacuity: nnchain over Q returns on a concrete input *)
+Example C02_nnchain_runs_exist :
+  forallb (fun meth => is_ok (nnchain_with (kops_of (QFr (fun x => x)) meth) Debug meth (st_new Q) (d_new Q 0) ex_m 6))
+    [Complete; Average; Weighted; Ward] = true.
+Proof. vm_compute. reflexivity. Qed.
